@@ -8,6 +8,7 @@ from .. import malsrc
 ASSUMPTIONS = [
     'antlr4 runtime 4.13.2 and the generated mal_lexer.py / mal_parser.py implement the maximal-munch lexer and the LL parser of mal.g4; tied by running the same texts through them and the Lean recursive-descent model',
     'numbers are compared after float(); the model keeps lexemes',
+    'MalCompiler.compile accepts a file iff the start rule parses and consumes the whole token stream (EOF check of e0054c2); the printed texts are consumed completely (theorem parse_print_consumed; comments and blanks after the last declaration are not input)',
     'specifications are printable: names are lexable identifiers that are not reserved tokens (E C I A and keywords), strings contain no double quote, reaches expressions end in their attack step, let / requires expressions contain no attack step',
 ]
 TRUSTED = ['Lean 4.33 kernel', 'axioms: propext, Classical.choice, Quot.sound',
@@ -61,6 +62,9 @@ def check_case(spec, rnd, mo_plain, res):
     variants = [('single file', {'m.mal': plain}, 'm.mal', True)]
     noisy = '\n'.join(malsrc.blocks(spec, noise=rnd, rnd=rnd)) + '\n'
     variants.append(('re-formatted (comments, spacing, redundant parentheses, alternative multiplicity forms)', {'m.mal': malsrc.reformat(noisy, rnd)}, 'm.mal', True))
+    # since e0054c2 the compiler requires EOF after the last declaration: comments and blanks are not input
+    tail = rnd.choice([' // the end', '\n/* the end */', '   ', '\n\n\t', ' // c\r\n /* d " */ ', '\n// }', ''])
+    variants.append(('text ending in a comment / blanks without final newline', {'m.mal': plain.rstrip('\n') + tail}, 'm.mal', True))
     f1, root1 = malsrc.split_files(blks, rnd, True)
     variants.append(('split over included files (order preserved, repeated include)', f1, root1, True))
     f2, root2 = malsrc.split_files(blks, rnd, False)
@@ -98,7 +102,7 @@ def run(seed, tier, lean) -> Result:
     rnd = random.Random(seed)
     res = Result(rule='random printable specifications (every step type, nested set / collect / transitive / subtype / variable expressions, TTC arithmetic '
                       'with 2-4 operators, all multiplicity forms, metas, several categories) printed with minimal parentheses and compiled by the real '
-                      'compiler: as one file, re-formatted (comments, odd spacing, redundant parentheses), split over included files in order, and '
+                      'compiler: as one file, re-formatted (comments, odd spacing, redundant parentheses), ending in a comment / blanks without final newline, split over included files in order, and '
                       'arbitrarily (compared as sets); coreLang from the shipped .mar; each compiled text also through the Lean model; token streams of '
                       'the real lexer vs the model; non-trivial = the specification has a nested set/collect expression and a TTC with >= 2 operators')
     n = 120 if tier == 'quick' else 720
